@@ -126,7 +126,12 @@ def showTable (t : Option (List (Key × List Out))) : String :=
   | some rows => " ".intercalate ((rows.mergeSort fun a b => keyLe a.1 b.1).map showRow)
 
 def runLine (p : Plan) (w : Nat) (flows : List (List (List (List Scalar)))) (mask : Nat) : String :=
-  showTable (finalTable p (runFlows p (fun i => mask.testBit i) (flows.map (tagFlow p w))))
+  -- base-3 digit i of `mask`: 0 = row-path group wins, 1 = columnar group wins, 2 = keys met (merged)
+  showTable (finalTable p (runFlows p (fun i =>
+    match (mask / 3 ^ i) % 3 with
+    | 0 => some false
+    | 1 => some true
+    | _ => none) (flows.map (tagFlow p w))))
 
 def flowAnswer (toks : List String) (membership : Bool) : String :=
   match toks with
@@ -136,8 +141,8 @@ def flowAnswer (toks : List String) (membership : Bool) : String :=
       match parseBody w (body.length + 1) body [] with
       | some (acc, result) =>
         let flows := fixOrder acc
-        -- every flow's sink map has its own iteration order: all 2^k choices
-        let cands := ((List.range (2 ^ (min flows.length 6))).map (runLine p w flows)).eraseDups
+        -- every flow's sink map has its own iteration order: all 3^k outcomes
+        let cands := ((List.range (3 ^ (min flows.length 5))).map (runLine p w flows)).eraseDups
         if membership then
           let r := " ".intercalate result
           if cands.contains r then "in" else "out " ++ " || ".intercalate cands
